@@ -37,6 +37,10 @@ fn leak(s: &str) -> &'static str {
     Box::leak(s.to_string().into_boxed_str())
 }
 
+mod guard_names {
+    pub const BY_PATH: &str = "named_by_a_path";
+}
+
 fn main() {
     use std::io::BufRead;
     let names: Vec<&'static str> = std::io::stdin().lock().lines().map(|l| leak(l.unwrap().trim())).filter(|s| !s.is_empty()).collect();
@@ -72,6 +76,8 @@ fn main() {
             println!("abort_guard_ident|{}|{}|{}", a, b, ao(&abort_guard!(ctx, some_guard_ident)));
             let ctx = TransitionContext::new(St(a), St("to"), b);
             println!("abort_guard_lit|{}|{}|{}", a, b, ao(&abort_guard!(ctx, "a_string_literal")));
+            let ctx = TransitionContext::new(St(a), St("to"), b);
+            println!("abort_guard_path|{}|{}|{}", a, b, ao(&abort_guard!(ctx, guard_names::BY_PATH)));
         }
     }
 }
